@@ -23,7 +23,7 @@ RULE = (
 ASSUMPTIONS = ["assertion sets are sets: no assertion is listed twice with the same confirmation flag", "NEN items whose eliminated set is everyone else are not well-formed and excluded"]
 REQUIRE_VAC = ["trees_with_unpruned_leaf", "trees_fully_pruned", "trees_pruned_below_root", "nodes_with_two_tags"]
 NAMES = "ABCD"
-PLAN = {"quick": {3: 15, 4: 3}, "thorough": {3: 15, 4: 4}}
+PLAN = {"quick": {3: 15, 4: 3}, "thorough": {3: 15, 4: 5}}
 
 
 def bounds(tier):
